@@ -18,7 +18,8 @@ import (
 // C17: a case is an OpenAPI 2 document in document-tagged JSON (spec/DocJson.tla), built by TLC.
 // The driver renders it as JSON text, unmarshals it into openapi2.T, converts it with
 // openapi2conv.ToV3, validates the result (as returned, and again after marshalling it and loading
-// it with the real loader), converts back with openapi2conv.FromV3 and logs the documents
+// it with the real loader), converts back with openapi2conv.FromV3, converts that document to OpenAPI 3 once
+// more (and validates it) and logs the documents
 // (json.Marshal of what the library returned, projected mechanically to tagged JSON) and the
 // outcomes.  What the documents say - and whether they say the same - is decided by TLC
 // (spec/Api23.tla, spec/Trace_C17.tla).  No oracle here.
@@ -229,6 +230,39 @@ func c17Run(c *Case) []any {
 		return fail("from3", "error", "marshal of the document converted back: "+err.Error())
 	}
 	line["d2b"] = d2b
+
+	// 5. the document converted back is an OpenAPI 2 document again: v2 -> v3 once more, validated.  When the JSON
+	// text of the second OpenAPI 3 document is the text of the first, it is logged as "same" instead of a second
+	// time (a compression of the log: TLC then reads d3 for d3a).
+	var doc3a *openapi3.T
+	p, msg = guard(func() { doc3a, err = openapi2conv.ToV3(doc2b) })
+	if p || err != nil || doc3a == nil {
+		if err != nil {
+			msg = err.Error()
+		} else if !p {
+			err = fmt.Errorf("nil document")
+			msg = err.Error()
+		}
+		return fail("again", c17Outcome(p, err), msg)
+	}
+	line["again"] = "ok"
+	d3a, text3a, err := c17TagJSON(doc3a)
+	if err != nil {
+		return fail("again", "error", "marshal of the document converted again: "+err.Error())
+	}
+	if string(text3a) == string(text3) {
+		line["d3aSame"] = true
+	} else {
+		line["d3aSame"] = false
+		line["d3a"] = d3a
+	}
+	p, msg = guard(func() { err = doc3a.Validate(context.Background()) })
+	line["vala"] = c17Outcome(p, err)
+	if err != nil {
+		line["valaMsg"] = err.Error()
+	} else if p {
+		line["valaMsg"] = msg
+	}
 	return []any{line}
 }
 
